@@ -210,7 +210,7 @@ def run_config(v, h, d, ps, mode, sync, tier, rnd, tag, newdb=False, sector=512)
     common.write_ndjson(req, batches)
     rc, txt, _ = common.run([h, "ops", req, out], timeout=3000)
     if rc != 0:
-        raise Infra("harness ops failed: " + txt[-2000:])
+        raise common.harness_failure(txt)
     res = {r["id"]: r for r in common.read_ndjson(out)}
     # second phase: the images are read by a fresh handle; for every third image ANOTHER process (this one) holds a
     # read lock on SQLite's shared byte range meanwhile -- a reader, not a writer: the journal stays hot
@@ -227,7 +227,7 @@ def run_config(v, h, d, ps, mode, sync, tier, rnd, tag, newdb=False, sector=512)
     for fd in held:
         os.close(fd)
     if rc != 0:
-        raise Infra("harness ops failed: " + txt[-2000:])
+        raise common.harness_failure(txt)
     res.update({r["id"]: r for r in common.read_ndjson(out2)})
     lines = []
     info = []
@@ -365,7 +365,7 @@ def run_leftovers(v, h, d, tier):
     common.write_ndjson(req, batches)
     rc, txt, _ = common.run([h, "ops", req, out], timeout=600)
     if rc != 0:
-        raise Infra("harness ops failed: " + txt[-2000:])
+        raise common.harness_failure(txt)
     res = {r["id"]: r for r in common.read_ndjson(out)}
     lines, info = [], []
     for i, name, jb, listed, db, rdir in todo:
